@@ -33,6 +33,7 @@ type ClientPlan struct {
 	CloseRst          bool      `json:"close_rst,omitempty"`
 	Chunks            []int     `json:"chunks,omitempty"` // fixed segmentation (C08); empty = scheduler decides
 	Witness           bool      `json:"witness,omitempty"`
+	Hostile           bool      `json:"hostile,omitempty"` // sends arbitrary bytes: its replies are not position-checked
 }
 
 type ProxyCfg struct {
